@@ -128,8 +128,10 @@ def feed(name: str, value, dtype: str) -> dict:
     return {name: v}
 
 
-def session(model) -> ort.InferenceSession:
+def session(model, optimise: bool = True) -> ort.InferenceSession:
     so = ort.SessionOptions()
+    if not optimise:
+        so.graph_optimization_level = ort.GraphOptimizationLevel.ORT_DISABLE_ALL
     so.intra_op_num_threads = 1
     so.inter_op_num_threads = 1
     so.log_severity_level = 4
